@@ -98,9 +98,11 @@ Definition set_there (f : nat) (b : bool) (s : mstate) : list file :=
 Definition visible (s : mstate) : list nat := filter (there s) (seq 0 (length (s_files s))).
 
 (* the .dat names a readdir returns: published files, and the 0-byte reservations of files still
-   being written (a flush's, or the merge output's) *)
+   being written (a flush's, or the merge output's). A flush file that was published and then
+   removed -- a merge over the FS store takes it as a source as soon as it is published, before
+   its flush has called Update -- has no entry any more although its flush is still pending. *)
 Definition has_entry (s : mstate) (f : nat) : bool :=
-  there s f || memn f (s_pending s)
+  there s f || (memn f (s_pending s) && negb (published s f))
   || match s_merge s with
      | Some m => match m_out m with Some o => (o =? f) && negb (m_committed m) | None => false end
      | None => false
